@@ -9,6 +9,7 @@ import (
 	"sort"
 	"strings"
 
+	"github.com/sdcio/yang-parser/data/datanode"
 	"github.com/sdcio/yang-parser/schema"
 
 	"verif/harness/internal/dvm"
@@ -25,7 +26,7 @@ type dataVec struct {
 
 type dataMism struct {
 	Shape int         `json:"shape"`
-	Kind  string      `json:"kind"` // verdict spurious unreported decorate twice panic
+	Kind  string      `json:"kind"` // verdict spurious unreported decorate twice explicit-altered verdict-changed panic
 	D     []dvm.DNode `json:"d"`
 	Want  interface{} `json:"want"`
 	Got   interface{} `json:"got"`
@@ -33,49 +34,85 @@ type dataMism struct {
 }
 
 // observation of the real code on one data tree
+// Protocol on ONE tree object: validate, walk the decorated view once and twice, then walk
+// the original object again and validate it again (the decorated view is a pure view: the
+// explicit tree and its verdict must be what they were).
 type dataObs struct {
 	Errs  []dvm.Viol
 	Deco1 []dvm.DNode
 	Deco2 []dvm.DNode
+	After []dvm.DNode // walk of the original tree object after the decorated views were walked
+	Errs2 []dvm.Viol  // ValidateSchema on the original tree object afterwards
 	Panic string
 }
 
+func validate(ms schema.ModelSet, tree datanode.DataNode) []dvm.Viol {
+	out := []dvm.Viol{}
+	_, errs, ok := schema.ValidateSchema(ms, tree, false)
+	for _, e := range errs {
+		out = append(out, dvm.DecodeViol(e))
+	}
+	if !ok && len(errs) == 0 {
+		out = append(out, dvm.Viol{K: "other", N: "not ok without errors", Path: []string{}})
+	}
+	if ok && len(errs) != 0 {
+		out = append(out, dvm.Viol{K: "other", N: "ok with errors", Path: []string{}})
+	}
+	return out
+}
+
 func observe(ms schema.ModelSet, d []dvm.DNode) (o dataObs) {
-	o.Errs = []dvm.Viol{}
+	o.Errs, o.Errs2, o.Deco1, o.Deco2, o.After = []dvm.Viol{}, []dvm.Viol{}, []dvm.DNode{}, []dvm.DNode{}, []dvm.DNode{}
 	tree := dvm.Build(d)
-	func() {
+	step := func(what string, f func()) {
 		defer func() {
-			if r := recover(); r != nil {
-				o.Panic = strings.ReplaceAll(fmt.Sprint("ValidateSchema: ", r), "Error:", "E:")
+			if r := recover(); r != nil && o.Panic == "" {
+				o.Panic = strings.ReplaceAll(fmt.Sprint(what, ": ", r), "Error:", "E:")
 			}
 		}()
-		_, errs, ok := schema.ValidateSchema(ms, tree, false)
-		for _, e := range errs {
-			o.Errs = append(o.Errs, dvm.DecodeViol(e))
-		}
-		if !ok && len(errs) == 0 {
-			o.Errs = append(o.Errs, dvm.Viol{K: "other", N: "not ok without errors", Path: []string{}})
-		}
-		if ok && len(errs) != 0 {
-			o.Errs = append(o.Errs, dvm.Viol{K: "other", N: "ok with errors", Path: []string{}})
-		}
-	}()
-	func() {
-		defer func() {
-			if r := recover(); r != nil {
-				o.Panic = strings.ReplaceAll(fmt.Sprint("AddDefaults: ", r), "Error:", "E:")
-			}
-		}()
+		f()
+	}
+	step("ValidateSchema", func() { o.Errs = validate(ms, tree) })
+	step("AddDefaults", func() {
 		o.Deco1 = dvm.Walk(schema.AddDefaults(ms, tree))
 		o.Deco2 = dvm.Walk(schema.AddDefaults(ms, schema.AddDefaults(ms, tree)))
-	}()
-	if o.Deco1 == nil {
-		o.Deco1 = []dvm.DNode{}
-	}
-	if o.Deco2 == nil {
-		o.Deco2 = []dvm.DNode{}
-	}
+	})
+	step("walk of the explicit tree", func() { o.After = dvm.Walk(tree) })
+	step("ValidateSchema after AddDefaults", func() { o.Errs2 = validate(ms, tree) })
 	return
+}
+
+// judgeErrs compares reported errors with the spec's violation sets; "" = agreed.
+func judgeErrs(viol, mustv, errs []dvm.Viol) (string, *dvm.Viol) {
+	want, must, got := map[string]dvm.Viol{}, map[string]dvm.Viol{}, map[string]dvm.Viol{}
+	for _, x := range viol {
+		want[violKey(x, true)] = x
+	}
+	for _, x := range mustv {
+		must[violKey(x, true)] = x
+	}
+	for _, x := range errs {
+		got[violKey(x, true)] = x
+	}
+	if (len(got) == 0) != (len(want) == 0) {
+		for _, x := range sortedViols(want, got) {
+			x := x
+			return "verdict", &x
+		}
+	}
+	for _, k := range sortedKeys(got) {
+		if _, ok := want[k]; !ok {
+			x := got[k]
+			return "spurious", &x
+		}
+	}
+	for _, k := range sortedKeys(must) {
+		if _, ok := got[k]; !ok {
+			x := must[k]
+			return "unreported", &x
+		}
+	}
+	return "", nil
 }
 
 func violKey(v dvm.Viol, eraseChoice bool) string {
@@ -128,44 +165,14 @@ func replayData(args []string) {
 				mism("panic", "", o.Panic, nil)
 				return
 			}
-			want, must, got := map[string]dvm.Viol{}, map[string]dvm.Viol{}, map[string]dvm.Viol{}
-			for _, x := range v.Viol {
-				want[violKey(x, true)] = x
+			if k, x := judgeErrs(v.Viol, v.Must, o.Errs); k != "" {
+				mism(k, v.Viol, o.Errs, x)
+			} else if k, x := judgeErrs(v.Viol, v.Must, o.Errs2); k != "" {
+				// the same tree object judged again after its decorated views were walked
+				mism("verdict-changed", v.Viol, o.Errs2, x)
 			}
-			for _, x := range v.Must {
-				must[violKey(x, true)] = x
-			}
-			for _, x := range o.Errs {
-				got[violKey(x, true)] = x
-			}
-			switch {
-			case (len(got) == 0) != (len(want) == 0):
-				var first *dvm.Viol
-				for _, x := range sortedViols(want, got) {
-					x := x
-					first = &x
-					break
-				}
-				mism("verdict", v.Viol, o.Errs, first)
-			default:
-				done := false
-				for _, k := range sortedKeys(got) {
-					if _, ok := want[k]; !ok {
-						x := got[k]
-						mism("spurious", v.Viol, o.Errs, &x)
-						done = true
-						break
-					}
-				}
-				if !done {
-					for _, k := range sortedKeys(must) {
-						if _, ok := got[k]; !ok {
-							x := must[k]
-							mism("unreported", v.Viol, o.Errs, &x)
-							break
-						}
-					}
-				}
+			if dvm.KeyOf(o.After) != dvm.KeyOf(v.D) {
+				mism("explicit-altered", dvm.Canon(v.D), dvm.Canon(o.After), nil)
 			}
 			wd := dvm.KeyOf(v.Deco)
 			if wd != dvm.KeyOf(dvm.PruneNP(sh.Kids, v.D)) {
@@ -216,6 +223,8 @@ type dataEvent struct {
 	Errs  []dvm.Viol  `json:"errs"`
 	Deco1 []dvm.DNode `json:"deco1"`
 	Deco2 []dvm.DNode `json:"deco2"`
+	After []dvm.DNode `json:"after"` // the explicit tree object walked again afterwards
+	Errs2 []dvm.Viol  `json:"errs2"` // and validated again
 }
 
 // recordData: every case file line is [id, kids (schema), d (data)].
@@ -255,7 +264,7 @@ func recordData(args []string) {
 			if o.Panic != "" {
 				o.Errs = append(o.Errs, dvm.Viol{K: "panic", N: o.Panic, Path: []string{}})
 			}
-			w.put(dataEvent{c.ID, how, d, o.Errs, dvm.Canon(o.Deco1), dvm.Canon(o.Deco2)})
+			w.put(dataEvent{c.ID, how, d, o.Errs, dvm.Canon(o.Deco1), dvm.Canon(o.Deco2), dvm.Canon(o.After), o.Errs2})
 			ev++
 		}
 		emit("", c.D)
